@@ -37,7 +37,7 @@ func isFloat(t types.Type) bool {
 }
 
 func runC17(e *Engine, r *Report, tier string) {
-	r.Explanation = "C17, structural clauses over fx-core code reachable (module-scoped call graph) from transaction, block, genesis and upgrade entry points. Decided: R1 every `range` over a map is classified by what its body does to anything that outlives the loop — allowed: writes into other maps, delete, counting, commutative exact accumulation (math.Int / LegacyDec .Add, integer +=), append to a slice that is sorted before any other use; violation: a call with a state effect or taking a context, event emission, append without a dominating sort, an early exit; R2 no wall clock, randomness, environment, goroutines, select or channel operations, and no process-local data (stack dumps, caller info, goroutine/CPU counts, pid) outside logger calls; R3 floating point only in the two reviewed places (power difference, rendered with fixed precision before use), no float value reaches a store write or branch elsewhere; R4 node-local switches (IsCheckTx, IsReCheckTx, MinGasPrices) never guard a state effect; R5 no process-local mutable state: no package-level variable is written and no sync/atomic or sync.Map/Once cell is updated by code in scope (a memoised value would depend on what the process executed before). Not decided: determinism of dependencies, cgo and the Go runtime."
+	r.Explanation = "C17, structural clauses over fx-core code reachable (module-scoped call graph) from transaction, block, genesis and upgrade entry points. Decided: R1 every `range` over a map is classified by what its body does to anything that outlives the loop — allowed: writes into other maps, delete, counting, commutative exact accumulation (math.Int / LegacyDec .Add, integer +=), append to a slice that is sorted before any other use; violation: a call with a state effect or taking a context, event emission, append without a dominating sort, an early exit; R2 no wall clock, randomness, environment, goroutines, select or channel operations, and no process-local data (stack dumps, caller info, goroutine/CPU counts, pid) outside logger calls; R3 floating point only in the two reviewed places (power difference, rendered with fixed precision before use), no float value reaches a store write or branch elsewhere; R4 node-local switches (IsCheckTx, IsReCheckTx, MinGasPrices) never guard a state effect; R5 no process-local mutable state: no package-level variable is written and no sync/atomic or sync.Map/Once cell is updated by code in scope (a memoised value would depend on what the process executed before); R6 no function writes in place into bytes it read from a KVStore or iterator — those slices are shared with the parent store's pending writes and the process's cached tree nodes, so a discarded branch (simulation, gas estimation, reverted frame) would change what later blocks read on this process only. Not decided: determinism of dependencies, cgo and the Go runtime."
 	scope := e.consensusScope()
 	var fns []*ssa.Function
 	for f := range scope {
@@ -48,6 +48,8 @@ func runC17(e *Engine, r *Report, tier string) {
 	r.Rule("R1", "map iteration has only order-insensitive effects", 2, "range-over-map sites in scope")
 	r.Rule("R2", "no clock / randomness / env / concurrency in scope", 1, "")
 	r.Rule("R5", "no process-local mutable state (package variables, sync/atomic cells) written during execution", 1, "stores to globals and atomic/sync updates in scope")
+	r.Rule("R6", "bytes read from a store are never written in place: a discarded execution (simulation, reverted frame) cannot change what the next block reads from the process's cached nodes (C09.R6)", 40, "KVStore / iterator read sites")
+	e.storeAliasRule(r, "R6")
 	nglob := 0
 	r.Rule("R3", "floating point confined to the reviewed fixed-precision sites", 1, "")
 	r.Rule("R4", "node-local switches never guard a state effect", 1, "")
